@@ -437,6 +437,61 @@ func (c *cluster) callWith(n *cnode, kind string, fn func(r *raft.Raft) error) {
 	}()
 }
 
+// sample: one light record per running server (term, role, commit, last index, first index of its
+// current term in its log, uncommitted configuration entries: all / of its current term, and the
+// leader's commitment start index)
+func (c *cluster) sample() {
+	for _, n := range c.nodes[1:] {
+		if n == nil || !n.up {
+			continue
+		}
+		term := n.r.CurrentTerm()
+		commit := n.r.CommitIndex()
+		lo, _ := n.st.InmemStore.FirstIndex()
+		hi, _ := n.st.InmemStore.LastIndex()
+		own, ncfg, ncfgOwn := uint64(0), 0, 0
+		for i := hi; i >= lo && i > 0 && hi-i < 400; i-- {
+			var l raft.Log
+			if n.st.InmemStore.GetLog(i, &l) != nil {
+				continue
+			}
+			if l.Term == term {
+				own = i
+			}
+			if l.Type == raft.LogConfiguration && i > commit {
+				ncfg++
+				if l.Term == term {
+					ncfgOwn++
+				}
+			}
+		}
+		start, isL := n.r.VerifLeaderStartIndex()
+		c.h.rec("P %d %d %d %d %d %d %d %d %d %d %d %d %d", n.id, n.life, c.h.now(), term, int(n.r.State()), commit, n.r.LastIndex(), own, ncfg, ncfgOwn, start, b2i(isL), lo)
+	}
+}
+
+func (c *cluster) isolate(id int, on bool) {
+	c.mu.Lock()
+	for o := 1; o < len(c.nodes); o++ {
+		if o == id {
+			continue
+		}
+		if on {
+			c.blocked[[2]int{id, o}] = true
+			c.blocked[[2]int{o, id}] = true
+		} else {
+			delete(c.blocked, [2]int{id, o})
+			delete(c.blocked, [2]int{o, id})
+		}
+	}
+	c.mu.Unlock()
+	if on {
+		c.h.rec("ISOL %d %d", id, c.h.now())
+	} else {
+		c.h.rec("UNISOL %d %d", id, c.h.now())
+	}
+}
+
 func (c *cluster) dump(phase string) {
 	for _, n := range c.nodes[1:] {
 		if !n.up {
@@ -544,6 +599,7 @@ func runClusterCase(rng *rand.Rand, thorough bool, out *bufio.Writer, st *stats,
 					c.blocked[[2]int{a, o}] = true
 					c.blocked[[2]int{o, a}] = true
 				}
+				c.h.rec("ISOL %d %d", a, c.h.now())
 				st.Hist["isolate"]++
 			} else if a != b {
 				c.blocked[[2]int{a, b}] = true
@@ -557,6 +613,7 @@ func runClusterCase(rng *rand.Rand, thorough bool, out *bufio.Writer, st *stats,
 			c.mu.Lock()
 			c.blocked = map[[2]int]bool{}
 			c.mu.Unlock()
+			c.h.rec("HEALALL %d", c.h.now())
 			st.Hist["heal"]++
 		case x < 75: // network weather
 			c.mu.Lock()
@@ -625,8 +682,55 @@ func runClusterCase(rng *rand.Rand, thorough bool, out *bufio.Writer, st *stats,
 				})
 				st.Hist["membership"]++
 			}
-		default:
+		case x < 96: // membership burst: two changes back to back while the leader cannot commit
+			if l := c.leader(); l != nil && nsrv >= 3 {
+				c.isolate(l.id, true)
+				id, ad := sidOf(nsrv), addrOf(nsrv)
+				for k := 0; k < 2; k++ {
+					demote := k == 0
+					c.callWith(l, "m", func(r *raft.Raft) error {
+						if demote {
+							return r.DemoteVoter(id, 0, 20*time.Millisecond).Error()
+						}
+						return r.AddVoter(id, ad, 0, 20*time.Millisecond).Error()
+					})
+					time.Sleep(time.Duration(2+rng.Intn(10)) * time.Millisecond)
+					c.sample()
+				}
+				time.Sleep(time.Duration(rng.Intn(60)) * time.Millisecond)
+				c.sample()
+				c.isolate(l.id, false)
+				st.Hist["membership-burst"]++
+			}
+		case x < 98: // leadership transfer to a server that is cut off at that very moment
+			if l := c.leader(); l != nil && len(ups) > 1 {
+				t := ups[rng.Intn(len(ups))]
+				if t.id != l.id {
+					tid, tad := sidOf(t.id), t.addr
+					c.callWith(l, "t", func(r *raft.Raft) error { return r.LeadershipTransferToServer(tid, tad).Error() })
+					time.Sleep(time.Duration(1+rng.Intn(8)) * time.Millisecond)
+					c.isolate(t.id, true)
+					for k := 0; k < 6; k++ {
+						time.Sleep(100 * time.Millisecond)
+						c.sample()
+					}
+					c.isolate(t.id, false)
+					st.Hist["transfer-target-isolated"]++
+				}
+			}
+		default: // a plain isolation of one server for a while (C14: its term must not move)
+			if len(ups) > 0 {
+				n := ups[rng.Intn(len(ups))]
+				c.isolate(n.id, true)
+				for k, m := 0, 2+rng.Intn(6); k < m; k++ {
+					time.Sleep(100 * time.Millisecond)
+					c.sample()
+				}
+				c.isolate(n.id, false)
+				st.Hist["isolation"]++
+			}
 		}
+		c.sample()
 		time.Sleep(time.Duration(1+rng.Intn(40)) * time.Millisecond)
 	}
 	// quiet period: heal, restart everything, let it converge
@@ -645,6 +749,7 @@ func runClusterCase(rng *rand.Rand, thorough bool, out *bufio.Writer, st *stats,
 			c.startNodeP(n)
 		}
 	}
+	h.rec("HEALALL %d", h.now())
 	h.rec("Q %d", h.now())
 	time.Sleep(15 * time.Second) // replication back-off reaches 10.24 s whatever the timeouts
 	// final writes must succeed at the leader
